@@ -36,7 +36,8 @@ Definition strided_end (lo c hi : N) (step : positive) : N :=
 
 (* usize subtraction as compiled in release mode (wrapping); a debug build would panic instead.
    Modelling it as truncated subtraction would hide an `i - 1` underflow. *)
-Definition wsub (a b : N) : N := if b <=? a then a - b else a + 18446744073709551616 - b.
+Definition two64 : N := 18446744073709551616.
+Definition wsub (a b : N) : N := if b <=? a then a - b else a + two64 - b.
 
 (* a fixed-size local array written by a vector store: (array length, offset, width) *)
 Definition local_store : Type := (N * N * N)%type.
